@@ -438,3 +438,14 @@ _meta_add("C11", bounds="plus family c11_crossing_failed_dial (ids, reasons, rep
 _meta_add("C13", functions=["heads::AuthorHeads::{insert, insert::{closure#0}, merge, decode}", "store::fs::LatestIterator::{new, next, next::{closure#0}}", "store::fs::Store::has_news_for_us (query c13_heads_api)"],
           bounds="heads API: author known / unknown, K <= 2 heads of the other set / decoded pairs / head rows",
           outside="postcard::from_bytes itself, the B-tree map (entry API modelled), the gossip code that sends and compares the heads")
+
+_meta_add("C15", functions=["store::<impl Display for FilterKind>::fmt + store::<impl FromStr for FilterKind>::from_str composed over SMT strings (query c15_filter_text)"],
+          bounds="c15_filter_text: filter bytes of ANY length and content (one symbolic SMT string), both variants, both encodings",
+          assumptions=["hex::encode / hex::decode uninterpreted with the contract decode(encode(b)) = Ok(b); String::from_utf8 answers either way; the fmt template byte code of this toolchain (literal runs, 0xC0 = next argument) is decoded by the query, anything else is inconclusive; any other str -> str function the parser calls is uninterpreted (sat => native witness c15text)"])
+_meta_add("C18", functions=["store::fs::Store::new_impl (query c18_open_runs_migrations)"])
+_meta_add("C10", functions=["sync::Replica::sync_process_message::{closure#0} (async fn body, query c10_step_counts)"],
+          bounds="c10_step_counts: incoming message with 0..2 values (the head-recording loop unrolled), engine answer Ok(None) / Ok(Some) / Err, counters symbolic",
+          assumptions=["ranger::Message::value_count uninterpreted; counter arithmetic as uninterpreted plus / minus (overflow of a usize counter of in-memory messages out of scope)"])
+_meta_add("C01", functions=["sync::Replica::sync_process_message::{closure#0}::{closure#0} (validate callback, query c03_reconcile_validation)", "store::fs::StoreInstance::remove_prefix_filtered (query c02_remove_prefix)",
+                            "sync::Replica::sync_process_message::{closure#0} counters (query c10_step_counts)"])
+_meta_add("C16", functions=["actor::Actor::close (query c14_gating part C)", "store::fs::Store::register_useful_peer::{closure#0} (query c17_register_step)"])
